@@ -106,6 +106,7 @@ GOOD = {
     "DInt 64": ["0", "-1", "9223372036854775807", "-9223372036854775808"],
     "DSplitWs": ["a", "a b", "main contrib non-free", "", "  a \t b\n c ", "amd64 arm64", "a b", " x"],
     "DSplitNl": ["a", "a\nb", "", "*", "debian/*\nsrc/x", "a\n", "\n", "a\n\nb", "2019 John Doe\n2020 Jane", "a\r\nb"],
+    "DSplitNlE": ["a", "a\nb", "", "*", "a\n", "\n", "a\n\nb", "2019 John Doe\n2020 Jane", "a\r\nb"],
     "DLines": ["a", "a\nb", "", "a\n", "a\r\nb", "a\n\nb", "\n", "a\r", "x y\nz"],
 }
 BAD = {
